@@ -148,12 +148,14 @@ typedef struct vf_case {
     uint64_t sig;
     int nontrivial;
     long counters[8];    /* free-form numeric observations summed by the driver */
+    char notes[96];      /* "+note+note": context appended to leak keys and to death keys (see vf_note) */
 } vf_case;
 
 void vf_viol(vf_case *c, const char *key, const char *fmt, ...) __attribute__((format(printf, 3, 4)));
 void vf_skip(vf_case *c, const char *why);
 void vf_tag(vf_case *c, const char *fmt, ...) __attribute__((format(printf, 2, 3)));
 void vf_desc(vf_case *c, const char *fmt, ...) __attribute__((format(printf, 2, 3)));
+void vf_note(vf_case *c, const char *note);
 void vf_sig(vf_case *c, const void *p, size_t n);
 void vf_sig_u64(vf_case *c, uint64_t v);
 void vf_log(vf_case *c, const char *fmt, ...) __attribute__((format(printf, 2, 3)));   /* verbose only */
